@@ -197,6 +197,7 @@ structure H where
   submitted : List Dgram := []        -- every datagram passed to send / try_send / try_send2, in call order
   accepted : List Dgram := []         -- datagrams of uv_udp_send calls that returned 0
   klog : List KCall := []             -- system calls on the sending side
+  cancelled : List Nat := []          -- seqs of the requests still in the write queue at uv__udp_finish_close
   trace : List Ev := []
   deriving Repr
 
@@ -325,7 +326,8 @@ def ioOut (sc : Script) (s : H) : H :=
 /-- uv__udp_finish_close (67-92) -/
 def finishClose (sc : Script) (s : H) : H :=
   if !s.closing ∨ s.closed then s else
-  let s := { s with cq := s.cq ++ s.wq.map (fun d => (d, UV_ECANCELED)), wq := [] }
+  let s := { s with cq := s.cq ++ s.wq.map (fun d => (d, UV_ECANCELED)), wq := [],
+                    cancelled := s.cancelled ++ s.wq.map (·.seq) }
   let s := runCompleted sc s
   emit { s with recvSet := false, closed := true } .closeCb
 
